@@ -86,6 +86,8 @@ def apply_edits(out, src, lo, hi, edits):
 
 
 class Generator:
+    canary = False      # thorough tier: insert `assert(false)` at the start of every VERIFY body (each must then FAIL)
+
     def __init__(self, src, unit, report):
         self.src = src
         self.unit = unit
@@ -501,6 +503,16 @@ class Generator:
                     body.append(ch); idx.append(k)
             else:
                 body.append(t.text); idx.append(k)
+        # rustc's pretty printer adds a trailing comma only when it breaks a list over several lines: ignore `,` before a closer
+        def norm(seq, ids):
+            o, oi = [], []
+            for k, t in enumerate(seq):
+                if t == "," and k + 1 < len(seq) and seq[k + 1] in ("}", ")", "]"):
+                    continue
+                o.append(t); oi.append(ids[k] if ids else k)
+            return o, oi
+        want, _ = norm(want, None)
+        body, idx = norm(body, idx)
         hits = []
         n = len(want)
         for s in range(0, len(body) - n + 1):
@@ -513,6 +525,9 @@ class Generator:
     def body_edits(self, it, fs, bo, bc):
         toks = self.toks
         edits = self.common_edits(bo, bc)
+        if self.canary and fs:
+            edits.append(Edit(toks[bo].end, toks[bo].end, "\n proof { assert(false); } /* vacuity canary */\n",
+                              {"kind": "canary", "fn": it.path, "tags": fs.props}, 40))
         if not fs:
             return edits
         loops = self.find_loops(bo, bc) if (fs.loops or any(p.anchor.startswith("loop") for p in fs.proofs)) else []
